@@ -55,18 +55,24 @@ theorem refillTokens_refines (rl : Code.TokenBucketRateLimiter) (b : Code.Bucket
   rw [hsub] at hb
   unfold Code.refillTokens RL.refill
   simp only [absB, rlCfg]
+  -- (the case facts are given to `simp` in both polarities — `0 < x` and `¬ x ≤ 0` —, so that the proof does not care
+  -- whether the code tests `x > 0` and goes on or tests `x <= 0` and returns)
   by_cases c : 0 < Int.tdiv (now - b.lastRefill) rl.refillRate
   · have c' := hb.2.mp c
+    have cn : ¬ Int.tdiv (now - b.lastRefill) rl.refillRate ≤ 0 := by omega
     by_cases c2 : rl.maxTokens < b.tokens + Int.tdiv (now - b.lastRefill) rl.refillRate
     · have e : min (b.tokens.toNat + (now.toNat - b.lastRefill.toNat) / rl.refillRate.toNat) rl.maxTokens.toNat
           = rl.maxTokens.toNat := by rw [← hb.1]; omega
-      simp [c, c', c2, WFB, hr, hm, hn, e]
+      have c2n : ¬ b.tokens + Int.tdiv (now - b.lastRefill) rl.refillRate ≤ rl.maxTokens := by omega
+      simp [c, c', cn, c2, c2n, WFB, hr, hm, hn, e]
     · have e : min (b.tokens.toNat + (now.toNat - b.lastRefill.toNat) / rl.refillRate.toNat) rl.maxTokens.toNat
           = (b.tokens + Int.tdiv (now - b.lastRefill) rl.refillRate).toNat := by rw [← hb.1]; omega
-      simp [c, c', c2, WFB, hr, hm, hn, e]
+      have c2n : b.tokens + Int.tdiv (now - b.lastRefill) rl.refillRate ≤ rl.maxTokens := by omega
+      simp [c, c', cn, c2, c2n, WFB, hr, hm, hn, e]
       omega
   · have c' : ¬ 0 < (now.toNat - b.lastRefill.toNat) / rl.refillRate.toNat := fun h => c (hb.2.mpr h)
-    simp [c, c', WFB, hr, hm, ht, hl]
+    have cn : Int.tdiv (now - b.lastRefill) rl.refillRate ≤ 0 := by omega
+    simp [c, c', cn, WFB, hr, hm, ht, hl]
 
 theorem allow_refines (rl : Code.TokenBucketRateLimiter) (b : Code.Bucket) (now : Int) (cutoff : Nat)
     (hw : WFB rl b) (hn : 0 ≤ now) :
